@@ -278,6 +278,10 @@ impl ExTracker {
             buf_ok && pre.trade_log.len() == post.trade_log.len() && pre.next_id == post.next_id,
             "delete_order({id}) touched the pending buffer, the trade log or the id counter"
         );
+        rule!(
+            ctx, "C17", "book-in-admission-order", "delete", post.book.windows(2).all(|w| w[0].order_id < w[1].order_id),
+            "book after delete_order is not in admission (id) order: {:?}", post.book.iter().map(|o| o.order_id).collect::<Vec<_>>()
+        );
         // follow what the exchange did
         for o in &pre.book {
             if let Some(oid) = o.order_id {
@@ -632,6 +636,10 @@ impl ExTracker {
             self.recs[i].status = St::Cancelled;
         }
 
+        rule!(
+            ctx, "C17", "book-in-admission-order", "tick", post.book.windows(2).all(|w| w[0].order_id < w[1].order_id),
+            "book after tick is not in admission (id) order: {:?}", post.book.iter().map(|o| o.order_id).collect::<Vec<_>>()
+        );
         rule!(ctx, "C03", "buffer-cleared", "tick", post.buffer.is_empty(), "pending buffer not empty after tick: {} orders", post.buffer.len());
         {
             let ok = post.trade_log.len() == pre.trade_log.len() + trades.len()
